@@ -110,6 +110,8 @@ def teardown_outcome(path):
     tag = '+verify' if verified else ''
     if o[0] == 'return':
         v = strip(o[1])
+        if is_call(v, r'FromResidual<.*>>?::from_residual$') and v[2] and strip(v[2][0])[0] == 'agg' and strip(v[2][0])[3] == 'Err':
+            v = strip(v[2][0])      # (`Err(e)?` written through a helper that was opened up: the early return of that very Err)
         if v[0] == 'agg' and v[3] == 'Ok':
             return 'ok' + tag
         if v[0] == 'agg' and v[3] == 'Err':
